@@ -706,7 +706,7 @@ class Rewriter:
         return n
 
     # R13 -----------------------------------------------------------------
-    def take_fragment(self, start, sig, tail, to_block_end=False, prologue=""):
+    def take_fragment(self, start, sig, tail, to_block_end=False, prologue="", wrap=None):
         """Keep ONE statement of the function: from the literal `start` (must occur once) to the `;`
         that ends that statement at the same nesting depth; emit `sig { statement tail }`.
         With to_block_end: keep everything from `start` to the end of the block that encloses it (the
@@ -731,6 +731,10 @@ class Rewriter:
                 raise ExtractError("%s: R13: no enclosing block after %r" % (self.label, start))
             stmt = self.text[idxs[0]:k].rstrip()
             dropped = self.text.count("\n") - stmt.count("\n")
+            if wrap:
+                # the kept text is a block whose VALUE the emitted function returns inside a wrapper
+                # (`Ok({ .. })`): `return` statements in it still leave the function
+                stmt = wrap[0] + "\n" + stmt + "\n" + wrap[1]
             self.text = "%s {\n        %s\n        %s\n    }" % (sig, prologue, stmt)
             self.hit("R13-fragment")
             self.hit("R13-lines-dropped", dropped)
